@@ -178,7 +178,7 @@ def strict_all(ctx, pool, module, spec, consts, invs, recs, trace_name, limit, t
 def run(ctx):
     q = ctx.quick
     ctx.specdir()
-    pool = ThreadPoolExecutor(max_workers=4)
+    pool = ThreadPoolExecutor(max_workers=4 if q else 5)
     try:
         return _run(ctx, q, pool)
     finally:
@@ -187,15 +187,16 @@ def run(ctx):
 
 def _run(ctx, q, pool):
     # 1 + 2. design level, and the case / behaviour generators (independent TLC runs, side by side)
-    f_wexh = pool.submit(ctx.tlc, "WireMC", "Wire_exh.cfg" if q else "Wire_deep.cfg", workers=3, timeout=900)
-    f_kexh = pool.submit(ctx.tlc, "NtsKeStreamMC", "NtsKeStream_exh.cfg" if q else "NtsKeStream_deep.cfg",
-                         workers=2 if q else 4, timeout=900)
     f_wgen = pool.submit(ctx.tlc, "WireMC", "Wire_gen.cfg" if q else "Wire_gendeep.cfg", workers=1, timeout=900, tag="gen")
-    f_kgen = pool.submit(ctx.tlc, "NtsKeStreamMC", "NtsKeStream_gen.cfg" if q else "NtsKeStream_gendeep.cfg",
-                         workers=1, timeout=900, tag="gen")
-    wgen, kgen = f_wgen.result(), f_kgen.result()
-    wcases = ctx.emitted(wgen["out"])
-    kcases = ctx.emitted(kgen["out"])
+    kgens = ["NtsKeStream_gen.cfg"] if q else ["NtsKeStream_gendeep.cfg", "NtsKeStream_gendeep4.cfg", "NtsKeStream_genwide.cfg"]
+    f_kgens = [pool.submit(ctx.tlc, "NtsKeStreamMC", g, workers=1, timeout=900, tag="gen") for g in kgens]
+    f_exh = [(pool.submit(ctx.tlc, "WireMC", "Wire_exh.cfg" if q else "Wire_deep.cfg", workers=3 if q else 6, timeout=1500), "Wire")]
+    for g in (["NtsKeStream_exh.cfg"] if q else ["NtsKeStream_deep.cfg", "NtsKeStream_wide.cfg"]):
+        f_exh.append((pool.submit(ctx.tlc, "NtsKeStreamMC", g, workers=2 if q else 4, timeout=1500), "NtsKeStream"))
+    wcases = ctx.emitted(f_wgen.result()["out"])
+    kcases = []
+    for f in f_kgens:
+        kcases += ctx.emitted(f.result()["out"])
     if len(wcases) < 1000 or len(kcases) < 3000:
         raise vlib.Inconclusive("case generators produced only %d wire cases / %d stream behaviours" % (len(wcases), len(kcases)))
     ctx.log("TLC generated %d codec cases and %d (message, segmentation) behaviours" % (len(wcases), len(kcases)))
@@ -229,7 +230,7 @@ def _run(ctx, q, pool):
     if nvals == 0 or any(not all(r["canon"]) for r in wrecs if r["k"] == "lay"):
         raise vlib.Inconclusive("layout records without claimed values")
 
-    for f, what in ((f_wexh, "Wire"), (f_kexh, "NtsKeStream")):
+    for f, what in f_exh:
         r = f.result()
         ctx.log("TLC exhaustive %s (%s): %d distinct states, property section holds on the repaired variant" %
                 (what, r["cfg"], r["distinct"]))
